@@ -34,9 +34,9 @@ SESSIONS = {"quick": (128, 24), "thorough": (512, 48)}     # free-running: (sess
 BURSTS = {"quick": (32, 40), "thorough": (64, 80)}         # stream storm: (burst sessions, rounds); one round = all at once
 
 _RE_VIOL = re.compile(r"Error: Invariant (\w+) is violated by the initial state:\s*\n(?:/\\ )?l = (\d+)")
-_RE_UNIV = re.compile(r'<<\s*"(universe|auth|scope|resume|seq)",\s*\[(.*?)\]\s*>>', re.S)
+_RE_UNIV = re.compile(r'<<\s*"(universe|auth|scope|resume|seq|race)",\s*\[(.*?)\]\s*>>', re.S)
 ECHO_KEYS = ("kind", "cert", "reg", "path", "change", "present", "steps")
-PARTS = ("auth", "scope", "resume", "seq")
+PARTS = ("auth", "scope", "resume", "seq", "race")
 SEQ_SRC = {}     # first line index of a sequence -> the sequence as exported (for replay files)
 
 
@@ -247,7 +247,7 @@ def execute(seed, singles, sessions, workdir, vh, t_budget):
     i = 0
     SEQ_SRC.clear()
     for o in singles:
-        if o["kind"] == "seq":      # one input line, one recorded line per step
+        if o["kind"] in ("seq", "race"):      # one input line, one recorded line per step
             lines.append(json.dumps(dict(o, i=i + 1)))
             SEQ_SRC[i + 1] = o
             for st in o["steps"]:
@@ -344,7 +344,7 @@ def run(pid, tier, seed, replay):
             o = json.loads(l)
             o.setdefault("kind", "case")
             singles.append({k: o[k] for k in ECHO_KEYS if k in o})
-        nlines = sum(len(o["steps"]) if o["kind"] == "seq" else 1 for o in singles)
+        nlines = sum(len(o["steps"]) if o["kind"] in ("seq", "race") else 1 for o in singles)
         objs, viol, judged, _ = execute(seed, singles, [], workdir, vh, 1200)
         violations = to_violations(pid, objs, viol)
         for inv in viol:
@@ -359,13 +359,15 @@ def run(pid, tier, seed, replay):
     # both universes are model-checked completely in every tier (seconds); the tiers differ in how much of the
     # thorough universe is replayed on the real code: a seeded sample (quick) or all of it (thorough)
     cfgs = ["MC_quick.cfg", "MC_thorough.cfg"]
-    with concurrent.futures.ThreadPoolExecutor(max_workers=5) as ex:
+    with concurrent.futures.ThreadPoolExecutor(max_workers=6) as ex:
         futs = {cfg: ex.submit(j1, cfg, 1500) for cfg in cfgs}
         fut_asfound = ex.submit(j1, "MC_asfound.cfg", 900)
         fut_strict = ex.submit(j1, "MC_strict.cfg", 900)
         fut_memory = ex.submit(j1, "MC_memory.cfg", 900)
+        fut_shared = ex.submit(j1, "MC_shared.cfg", 900)
         results = {cfg: f.result() for cfg, f in futs.items()}
         r_asfound, r_strict, r_memory = fut_asfound.result(), fut_strict.result(), fut_memory.result()
+        r_shared = fut_shared.result()
     states = transitions = 0
     exported = {}
     for cfg in cfgs:
@@ -392,10 +394,13 @@ def run(pid, tier, seed, replay):
         raise vlib.Inconclusive("discrimination test: a router remembering lease ids per coordinates (MC_memory.cfg) must violate SeqSound in J1, got %r" % r_memory)
     cov["strict_reading_model_violates"] = r_strict.violated
     cov["remembering_router_model_violates"] = r_memory.violated
+    if r_shared.violated != "RaceSound":
+        raise vlib.Inconclusive("discrimination test: handshakes sharing one verdict per certificate id (MC_shared.cfg) must violate RaceSound in J1, got %r" % r_shared)
+    cov["shared_verdict_model_violates"] = r_shared.violated
     quick_set = set(exported["MC_quick.cfg"])
     rest = [l for l in exported["MC_thorough.cfg"] if l not in quick_set]     # shared cases are replayed once
     if tier == "quick":
-        small = ('"kind":"resume"', '"kind":"seq"')                           # the few resumption / sequence cases: always all
+        small = ('"kind":"resume"', '"kind":"seq"', '"kind":"race"')                           # the few resumption / sequence cases: always all
         resume_rest = [l for l in rest if any(k in l for k in small)]
         other = [l for l in rest if not any(k in l for k in small)]
         rest = resume_rest + rnd.sample(other, min(len(other), QUICK_SAMPLE))
@@ -463,7 +468,7 @@ def run(pid, tier, seed, replay):
         accepted_connections=len(accepted),
         served_requests=sum(1 for o in cases if o["served"]),
         refused_handshakes=sum(1 for o in cases if not o["tls"]),
-        sequence_steps=sum(1 for o in cases if o.get("seq")),
+        sequence_and_overlap_steps=sum(1 for o in cases if o.get("seq")),
         resumption_cases=len(resumes),
         resumed_connections=sum(1 for o in resumes if o.get("resumed")),
         stream_storm={"burst_sessions": len(bursts), "rounds": rounds, "streams": sum(1 for o in cases if o.get("session", 0) >= 100000),
